@@ -280,6 +280,16 @@ class Effects:
                 return [(recv_info(e.value), e.attr, e.value)]
             if isinstance(e, ast.Name) and e.id in aliases:
                 return [(recv_info(a.value), a.attr, a.value) for a in aliases[e.id]]
+            if isinstance(e, ast.Call) and isinstance(e.func, ast.Name) and e.func.id == "getattr" and len(e.args) == 2:
+                # getattr(x, <name>).append(...): the attribute named by a constant or by an enumerable name
+                a = e.args[1]
+                names = [a.value] if isinstance(a, ast.Constant) and isinstance(a.value, str) else None
+                if names is None and isinstance(a, ast.Name):
+                    vals = static_values(func, a, e)
+                    if vals and all(isinstance(x, ast.Constant) and isinstance(x.value, str) for x in vals):
+                        names = sorted({x.value for x in vals})
+                if names:
+                    return [(recv_info(e.args[0]), nm, e.args[0]) for nm in names]
             return []
 
         method_func_attrs = set()
